@@ -103,7 +103,10 @@ class Built:
         for dom in self.sc["domains"]:
             for it in dom["items"]:
                 if it.get("ref") is not None and it["ref"] in self.items:
-                    self.items[it["s"]]._ref = self.items[it["ref"]]
+                    if isinstance(self.items[it["s"]], eworld.PItem):
+                        self.items[it["s"]].ref = self.items[it["ref"]]
+                    else:
+                        self.items[it["s"]]._ref = self.items[it["ref"]]
 
     def _domain_object(self, dom_id: int):
         dom = next((d for d in self.sc["domains"] if d["id"] == dom_id), None)
@@ -191,6 +194,8 @@ class Built:
         raise BuildError(f"unknown tag {tag}")
 
     def _make_query(self, qd: Dict, qi: Optional[int]):
+        if qd.get("pattern"):
+            return self._make_pattern_query(qd)
         rule = qd.get("rule")
         conds = [self.bx(c) for c in qd.get("conds", [])]
         if rule:
@@ -225,6 +230,18 @@ class Built:
                     self._make_branch(out, br)
         return query
 
+    def _make_pattern_query(self, qd: Dict):
+        from krrood.entity_query_language.match import entity_matching, match
+
+        def value_of(spec):
+            if isinstance(spec, list) and spec and spec[0] == "match":
+                return match(eworld.ITEM_TYPES[spec[1].get("t", "P")])(**{k: value_of(v) for k, v in spec[1]["kw"].items()})
+            return self.bx(spec)
+
+        pd = qd["pattern"]
+        pattern = entity_matching(eworld.ITEM_TYPES[pd.get("t", "P")], self._domain_object(pd["dom"]))(**{k: value_of(v) for k, v in pd["kw"].items()})
+        return the(pattern) if qd.get("q") == "the" else an(pattern)
+
     def _add_conclusion(self, out, concl: Dict):
         cls = eworld.INFERRED_TYPES[concl["cls"]]
         Add(out, inference(cls)(**{k: self.bx(v) for k, v in concl["kw"].items()}))
@@ -247,6 +264,8 @@ class Built:
             return self.norm(v.value, depth + 1)
         if isinstance(v, eworld.Item):
             return ["i", v.serial]
+        if isinstance(v, eworld.PItem):
+            return ["i", object.__getattribute__(v, "serial")]
         if isinstance(v, eworld.Inferred):
             return [
                 "k",
